@@ -227,6 +227,35 @@ class CHECK(Check):
         want = {A.Insert: (S.InsertToTable,), A.Update: (S.UpdateToTable,), A.Delete: (S.DeleteStep,), A.CreateTable: (S.SaveToTable, S.CreateTableStep)}.get(type(tree), DATAFRAME_STEPS)
         if not isinstance(last, want):
             res.violation(f'last-step|{type(tree).__name__}|{type(last).__name__}', f'{sql!r} [{cat}]: last step is {type(last).__name__}\n    {steps}')
+        # the last step produces the answer: every fetch of the plan has to feed it (a fetch whose result no later step consumes,
+        # directly or through other steps, means the answer ignores data the statement reads)
+        feeds = {i: set() for i in range(len(steps))}
+        top = {id(x): k for k, x in enumerate(steps)}
+        for i, s in enumerate(steps):
+            for r, _ in reflect.walk(s, want=lambda x: isinstance(x, StepResult) or (isinstance(x, S.PlanStep) and id(x) in top)):
+                if isinstance(r, S.PlanStep):
+                    if top[id(r)] != i:
+                        feeds[i].add(top[id(r)])     # a step held as an object (InsertToTable.dataframe ...)
+                    continue
+                n = r.step_num
+                if isinstance(n, str) and '_' in n:
+                    n = n.split('_')[0]
+                try:
+                    n = int(n)
+                except (TypeError, ValueError):
+                    continue
+                if 0 <= n < len(steps) and n != i:
+                    feeds[i].add(n)
+        reach, todo = {len(steps) - 1}, [len(steps) - 1]
+        while todo:
+            for n in feeds[todo.pop()]:
+                if n not in reach:
+                    reach.add(n)
+                    todo.append(n)
+        dead = [i for i, s in enumerate(steps) if i not in reach and isinstance(s, (S.FetchDataframeStep, S.ApplyPredictorStep, S.ApplyTimeseriesPredictorStep))]
+        if dead:
+            res.violation(f'step-does-not-feed-the-answer|{type(steps[dead[0]]).__name__}|{type(last).__name__}',
+                          f'{sql!r} [{cat}]: the result of step {dead[0]} is used by no step that leads to the last one\n    {steps}')
         return res
 
     def check_refs(self, res, step, i, sql, cat, steps, container=None, sub_index=None, sub_ids=()):
